@@ -14,6 +14,19 @@ pub fn oracle(spec: &RespSpec, case: &RespCase, out: &RespOut) -> Result<(), (St
     }
     let mut got: Vec<u8> = vec![];
     match &case.reads {
+        Reads::BufOps(ops) => {
+            // the BufRead view: judged as the equivalent sequence of reads
+            let (ns, evs, tracked) = crate::bufview::convert(ops, &out.events)?;
+            let case2 = RespCase { reads: Reads::Sizes(ns), ..case.clone() };
+            let mut out2 = out.clone();
+            out2.events = evs;
+            if tracked {
+                oracle(spec, &case2, &out2)
+            } else {
+                let exp = crate::spec::Decoded { payload: payload.clone(), end: crate::spec::End::Complete(0) };
+                crate::delivery::check(&exp, &case2.reads, &out2.events, fr).map(|_| ())
+            }
+        }
         Reads::Text(_) => match out.events.as_slice() {
             [Ev::Ok(bs)] if *bs == String::from_utf8_lossy(&payload).as_bytes() => Ok(()),
             [Ev::Ok(bs)] => Err((format!("text-mismatch-{}", fr), format!("text_utf8() returned {} bytes for a {}-byte payload and it is not its lossy UTF-8 decoding", bs.len(), payload.len()))),
@@ -96,6 +109,11 @@ pub fn generate(seed: u64, tier: &str, sink: &mut Sink) {
                 2 => (Reads::Drain(crate::resp::DRAIN_ERR_FOR_STATUS), "error_for_status()+bytes()"),
                 _ => (Reads::Drain(crate::resp::DRAIN_BYTES), "bytes()"),
             }
+        } else if rng.chance(1, 5) {
+            // the BufRead view of the body reader (what the content decoders drive), mixed with read()
+            let tail = pieces(&spec, segs.len(), max_buf) + payload_len / 8192 + 3;
+            let (ops, name) = crate::bufview::gen_ops(&mut rng, payload_len, tail);
+            (Reads::BufOps(ops), name)
         } else {
             let (ns, name) = read_schedule(&mut rng, payload_len, pieces(&spec, segs.len(), max_buf));
             (Reads::Sizes(ns), name)
